@@ -397,7 +397,8 @@ func sameRef(a, b value) bool {
 		return ok && av == bv
 	case []value:
 		bv, ok := b.([]value)
-		return ok && len(av) > 0 && len(bv) > 0 && &av[0] == &bv[0]
+		// same backing array (an empty slice with spare capacity still shares it: appends would collide)
+		return ok && cap(av) > 0 && cap(bv) > 0 && &av[:1][0] == &bv[:1][0]
 	}
 	return false
 }
